@@ -307,7 +307,7 @@ def extra(ctx):
     tier, seed, lines = ctx["tier"], ctx["seed"], ctx["lines"]
     rnd = random.Random(seed * 1009 + 5)
     cert, refonly = collect(lines)
-    quota = dict(ncdf=14, npdf=6, invcdf=8, tcdf=20, tpdf=6) if tier == "quick" else dict(ncdf=400, npdf=150, invcdf=250, tcdf=500, tpdf=150)
+    quota = dict(ncdf=14, npdf=6, invcdf=8, tcdf=18, tpdf=6) if tier == "quick" else dict(ncdf=400, npdf=150, invcdf=250, tcdf=500, tpdf=150)
     nref = 4000 if tier == "quick" else 60000
     # ---- uncertified reference on a sample of all transcendental values
     ref_items = [it for it in refonly + cert]
@@ -372,6 +372,11 @@ def extra(ctx):
                 for v in order:
                     if byv[v] and len(picked) < quota.get(kind, 0):
                         picked.append(byv[v].pop())
+            # ... plus abscissae next to 0, where V/(V+x*x) is within an ulp of 1 (defect D14 of the pinned tree)
+            if kind == "tcdf":
+                tiny = [it for it in items if 0 < abs(it[2]["x"]) < Fraction(1, 1000)]
+                rnd.shuffle(tiny)
+                picked += tiny[:2 if tier == "quick" else 40]
             chosen += picked
         else:
             chosen += items[:quota.get(kind, 0)]
